@@ -34,7 +34,7 @@ def ext_spec(spec):
     for t in gens:
         kid = 50 + t["id"]
         kids.add(kid)
-        s["tasks"].append({"id": kid, "module": t["module"], "deps": [], "prods": [7000 + t["id"]], "after": [],
+        s["tasks"].append({"id": kid, "module": t["module"], "deps": list(t.get("gen_child_deps", [])), "prods": [7000 + t["id"]], "after": [],
                            "marks": list(t.get("gen_marks", [])), "beh": "ok"})
     return s, kids
 
@@ -45,6 +45,7 @@ def oracle(hist, records):
         if rec["step"][0] != "build":
             continue
         spec, obs, cfg = rec["spec"], rec["obs"], rec["cfg"]
+        static_spec = spec
         spec, optional = ext_spec(spec)      # generated tasks exist only if their generator ran
         if obs.get("raised") or obs.get("exit") not in (0, 1):
             bad.append(("exit", f"build raised / exit {obs.get('exit')} {obs.get('raised')}", None))
@@ -60,6 +61,14 @@ def oracle(hist, records):
             if out.get(t) == "FAIL":
                 bad.append(("skip" + ("-F1" if f else ""), f"skipped task {t} reported FAIL", f))
         el = engine.eligible(spec, cfg)
+        unjudged = set()
+        if optional:
+            # what a generated task needs cannot be known when the static tasks are selected: static tasks are judged by the
+            # selection over the static project; a generated task that matches but needs a deselected task is not judged
+            el_static = engine.eligible(static_spec, cfg)
+            edges_e = engine.spec_task_edges(spec)
+            unjudged = {k for k in optional if k in el and not engine.closure(edges_e, k, forward=False) <= el_static}
+            el = el_static | {k for k in optional if k in el}
         for t in {x["id"] for x in spec["tasks"]} - el:
             if t in optional and t not in out and t not in ex:
                 continue
@@ -68,7 +77,7 @@ def oracle(hist, records):
             if out.get(t) != "SKIP":
                 bad.append(("select", f"task {t} is not eligible under k={cfg.get('k')!r} m={cfg.get('m')!r} but is reported {out.get(t)}", None))
         # "exactly": SKIP is only ever reported for tasks that are deselected or in the closure of a user-skipped task
-        for t in el - usk:
+        for t in el - usk - unjudged:
             if out.get(t) == "SKIP":
                 f = "F1" if t not in el_nof1 else None   # needed by a selected task only through a product-less after-edge
                 bad.append(("only" + ("-F1" if f else ""), f"task {t} is eligible under k={cfg.get('k')!r} m={cfg.get('m')!r} and neither it nor anything it depends on carries a "
@@ -285,18 +294,46 @@ def generator_histories(ctx):
     """Labelled stream "generator": a selected task generator creates a task during the build; the selection must apply to it."""
     rng = ctx.rng
     hs = []
+    # fixed shape: a (skipped | skipif(True) | unmarked) task s, and a generator (± try_last) whose child consumes s's product
+    for mk in (["skip"], ["skipif_true"], []):
+        for last in (True, False):
+            for built in (False, True):
+                spec = {"tasks": [
+                    {"id": 0, "module": 0, "deps": [100], "prods": [110], "after": [], "marks": list(mk), "beh": "ok", "style": "default"},
+                    {"id": 1, "module": 1, "deps": [], "prods": [111], "after": [], "marks": ["try_last"] if last else [], "beh": "ok",
+                     "style": "default", "gen": True, "gen_child_deps": [110]}],
+                    "versions": {"0": 0, "1": 0}, "inputs": {"100": 5}}
+                steps = [["build", {}]]
+                if built and mk:      # the product of the skipped task exists from an earlier build without the mark
+                    unmarked = copy.deepcopy(spec)
+                    unmarked["tasks"][0]["marks"] = []
+                    # … and the generator's module changed since, so that the generated task is out of date
+                    steps = [["build", {}], ["respec", spec], ["bump", 1], ["build", {}]]
+                    spec = unmarked
+                hs.append({"tag": "generator", "spec": spec, "steps": steps})
     for i in range(ctx.scale(40, 500)):
         spec = engine.gen_spec(rng, nt=(2, 5), after_p=0.15, after_needs_prods=True, user_markers=True, prodless_p=0.1,
-                               styles=("default", "annotated", "kwargs"), marks=(("skip", 0.05), ("skipif_false", 0.1)))
+                               styles=("default", "annotated", "kwargs"), marks=(("skip", 0.12), ("skipif_true", 0.06), ("skipif_false", 0.1)))
         for t in rng.sample(spec["tasks"], rng.randint(1, min(2, len(spec["tasks"])))):
             t["gen"] = True
             t["gen_marks"] = [mk for mk in ("markone", "marktwo") if rng.random() < 0.4]
+            # the generated task may consume products of other tasks (which may be skipped / deselected and may have been
+            # processed before the generator runs) — never of its own generator's descendants
+            edges = engine.spec_task_edges(spec)
+            below = engine.closure(edges, t["id"], forward=True) | {t["id"]}
+            pool = [p for u in spec["tasks"] if u["id"] not in below for p in u["prods"]]
+            if pool and rng.random() < 0.6:
+                t["gen_child_deps"] = sorted(rng.sample(pool, rng.randint(1, min(2, len(pool)))))
+            if rng.random() < 0.5 and "try_last" not in t["marks"]:
+                t["marks"].append("try_last")          # generators tend to run after the tasks whose products their children use
         se, kids = ext_spec(spec)
         names = [project.tname(t["id"]) for t in se["tasks"]]
         gens = [project.tname(t["id"]) for t in spec["tasks"] if t.get("gen")]
         cfg = {}
         r = rng.random()
-        if r < 0.45:      # the generator plus something else, so that the generator runs and its child may or may not be selected
+        if r < 0.25:
+            pass              # no selection: skip marks and generated dependants only
+        elif r < 0.5:     # the generator plus something else, so that the generator runs and its child may or may not be selected
             cfg["k"] = " or ".join([rng.choice(gens)] + rng.sample(names, rng.randint(0, 2)))
         elif r < 0.6:
             cfg["k"] = gen_expr(rng, se, "k")
